@@ -52,12 +52,49 @@ func runC14(c *Ctx) {
 		r.Fail("derived/wiring", pkg+".NewDerivedVariableN", "-", fmt.Sprintf("expected the NewDerivedVariable family (at least 3 arities), found %d", nFam))
 	}
 	// (2) derived sets
-	if s, fd := srcOf(p, pkg, "derivedSet", "applyInheritedMutations"); fd == nil {
+	if fd := p.FuncDecl(pkg, "derivedSet", "applyInheritedMutations"); fd == nil {
 		r.Unresolved("derivedset/collector-direction", pkg+".derivedSet.applyInheritedMutations", "method not found")
-	} else if hasAll(s, "mutations.AddedElements().Range(s.setArithmetic.AddedElementsCollector(inheritedMutations))", "mutations.DeletedElements().Range(s.setArithmetic.SubtractedElementsCollector(inheritedMutations))") {
-		r.Pass("derivedset/collector-direction", pkg+".derivedSet.applyInheritedMutations", p.posStr(fd.Pos()), "added -> AddedElementsCollector, deleted -> SubtractedElementsCollector")
 	} else {
-		r.Fail("derivedset/collector-direction", pkg+".derivedSet.applyInheritedMutations", p.posStr(fd.Pos()), "inherited additions must count up and deletions count down: "+s)
+		// what the added / deleted elements of the incoming mutations are ranged into, however the
+		// operands are named or threaded through temporaries
+		info := p.Pkg(pkg).TypesInfo
+		f := newFuncCFG(p, info, fd.Body, pkg+".derivedSet.applyInheritedMutations")
+		got := map[string]string{}
+		for _, c := range f.Calls(func(c *ast.CallExpr) bool {
+			se, ok := ast.Unparen(c.Fun).(*ast.SelectorExpr)
+			return ok && se.Sel.Name == "Range" && len(c.Args) == 1
+		}) {
+			cpt, found := f.PointOf(c)
+			if !found {
+				continue
+			}
+			src := ""
+			switch k := f.KeyAt(ast.Unparen(c.Fun).(*ast.SelectorExpr).X, cpt); {
+			case strings.HasSuffix(k, ".AddedElements()"):
+				src = "added"
+			case strings.HasSuffix(k, ".DeletedElements()"):
+				src = "deleted"
+			default:
+				continue
+			}
+			sink := "?"
+			if re, _ := f.ResolveToCall(c.Args[0], cpt); re != nil {
+				if rc, isCall := ast.Unparen(re).(*ast.CallExpr); isCall {
+					if se, isSel := ast.Unparen(rc.Fun).(*ast.SelectorExpr); isSel {
+						sink = se.Sel.Name
+					}
+				}
+			}
+			if prev, dup := got[src]; dup && prev != sink {
+				sink = prev + "+" + sink
+			}
+			got[src] = sink
+		}
+		if got["added"] == "AddedElementsCollector" && got["deleted"] == "SubtractedElementsCollector" {
+			r.Pass("derivedset/collector-direction", pkg+".derivedSet.applyInheritedMutations", p.posStr(fd.Pos()), "added -> AddedElementsCollector, deleted -> SubtractedElementsCollector")
+		} else {
+			r.Fail("derivedset/collector-direction", pkg+".derivedSet.applyInheritedMutations", p.posStr(fd.Pos()), fmt.Sprintf("inherited additions must count up and deletions count down: added -> %s, deleted -> %s", got["added"], got["deleted"]))
+		}
 	}
 	if fd := p.FuncDecl(pkg, "readableSet", "SubtractReactive"); fd == nil {
 		r.Unresolved("derivedset/collector-direction", pkg+".readableSet.SubtractReactive", "method not found")
@@ -421,15 +458,15 @@ func runC14(c *Ctx) {
 		}
 	}
 	// (5) sorted set
-	if s, fd := srcOf(p, pkg, "sortedSet", "swap"); fd == nil {
+	if s, fd := srcNorm(p, pkg, "sortedSet", "swap"); fd == nil {
 		r.Unresolved("sorted/slot-index-coupled", pkg+".sortedSet.swap", "method not found")
-	} else if hasAll(s, "s.sortedElements[left.index],s.sortedElements[right.index]=s.sortedElements[right.index],s.sortedElements[left.index]", "left.index,right.index=right.index,left.index", "swapped=(left.weight<right.weight)") {
+	} else if hasAll(s, "$.sortedElements[$1.index],$.sortedElements[$2.index]=$.sortedElements[$2.index],$.sortedElements[$1.index]", "$1.index,$2.index=$2.index,$1.index", "=($1.weight<$2.weight)") {
 		r.Pass("sorted/slot-index-coupled", pkg+".sortedSet.swap", p.posStr(fd.Pos()), "slots and indices are exchanged together; heavier elements move towards index 0")
 	} else {
 		r.Fail("sorted/slot-index-coupled", pkg+".sortedSet.swap", p.posStr(fd.Pos()), "swap must exchange the slice slots and the elements' indices together and order by weight: "+s)
 	}
-	if s, fd := srcOf(p, pkg, "sortedSet", "deleteSorted"); fd != nil {
-		if hasAll(s, "s.sortedElements[i]=s.sortedElements[(i+1)]", "s.sortedElements[i].index--", "s.sortedElements=s.sortedElements[:(len(s.sortedElements)-1)]") {
+	if s, fd := srcNorm(p, pkg, "sortedSet", "deleteSorted"); fd != nil {
+		if hasAll(s, "$.sortedElements[i]=$.sortedElements[(i+1)]", "$.sortedElements[i].index--", "$.sortedElements=$.sortedElements[:(len($.sortedElements)-1)]") {
 			r.Pass("sorted/slot-index-coupled", pkg+".sortedSet.deleteSorted", p.posStr(fd.Pos()), "closing the gap shifts slots and decrements the shifted elements' indices")
 		} else {
 			r.Fail("sorted/slot-index-coupled", pkg+".sortedSet.deleteSorted", p.posStr(fd.Pos()), "deleting must shift the following slots and decrement their indices: "+s)
